@@ -21,7 +21,7 @@ TextClasses == {"d-text-bold", "d-text-large", "d-text-ol-thick"}      \* need a
 StrokeClasses == {"d-thin"}
 ArrowClasses == {"d-arrow", "d-biarrow"}
 DashClasses == {"d-dash", "d-dot", "d-dot-dash", "d-flow", "d-flow-fast", "d-flow-slower", "d-flow-rev"}
-PatternClasses == {"d-grid", "d-grid-5", "d-hatch-10", "d-stipple-2"}
+PatternClasses == {"d-grid", "d-grid-5", "d-grid-05", "d-hatch-10", "d-stipple-2"}   \* 5 and 05: one spacing, two classes, two ids
 ShadowClasses == {"d-softshadow", "d-hardshadow"}
 Other == {"d-surround"}
 Vocab == ColourClasses \cup TextClasses \cup StrokeClasses \cup ArrowClasses \cup DashClasses
@@ -43,7 +43,7 @@ Injected(used, elems, on, root) == on /\ root
 \* emission order of the pattern rules: `perm` is the hash iteration order
 Less(a, b) == \* lexicographic order on strings of equal alphabet via TLC's string comparison is not
               \* available: order by position in a fixed listing
-    LET L == <<"d-grid", "d-grid-5", "d-hatch-10", "d-stipple-2">>
+    LET L == <<"d-grid", "d-grid-05", "d-grid-5", "d-hatch-10", "d-stipple-2">>
         pos(x) == CHOOSE i \in 1..Len(L) : L[i] = x
     IN pos(a) < pos(b)
 Perms(S) == {p \in [1..Cardinality(S) -> S] : \A i, j \in 1..Cardinality(S) : i # j => p[i] # p[j]}
@@ -52,10 +52,13 @@ EmitOrder(perm) == IF "HashOrderLeaks" \in Deviations THEN perm ELSE SortSeq(per
 UsedSets == IF Family = "full" THEN {{k1, k2, k3, k4} : k1 \in Vocab, k2 \in Vocab, k3 \in Vocab, k4 \in Vocab} \cup {{}, Vocab}
             ELSE {{k1, k2, k3} : k1 \in Vocab, k2 \in Vocab, k3 \in Vocab} \cup {{}, Vocab}
 Cases ==
-    {[fam |-> "styles", used |-> u \cup x, elems |-> e, on |-> o[1], root |-> o[2], local |-> l,
-      rules |-> IF Injected(u, e, o[1], o[2]) THEN Rules(u, e) ELSE {},
-      defs |-> IF Injected(u, e, o[1], o[2]) THEN Defs(u, e) ELSE {}] :
-        u \in UsedSets, x \in {{}, NotReserved}, e \in {{"rect"}, {"rect", "text"}},
+    {[fam |-> "styles", used |-> u \cup x, elems |-> e[1], place |-> e[2], on |-> o[1], root |-> o[2], local |-> l,
+      rules |-> IF Injected(u, e[1], o[1], o[2]) THEN Rules(u, e[1]) ELSE {},
+      defs |-> IF Injected(u, e[1], o[1], o[2]) THEN Defs(u, e[1]) ELSE {}] :
+        u \in UsedSets, x \in {{}, NotReserved},
+        \* where the classes sit: on the shapes, or spread over the author-written <tspan>
+        \* children of a <text> (the design looks at every output element alike)
+        e \in {<<{"rect"}, "shape">>, <<{"rect", "text"}, "shape">>, <<{"rect", "text"}, "tspan">>},
         o \in {<<TRUE, TRUE>>, <<FALSE, TRUE>>, <<TRUE, FALSE>>}, l \in BOOLEAN}
 
 Init == c \in Cases
